@@ -192,7 +192,7 @@ def _case(draw, tier):
         use_ifelse = k == 2 and draw(st.booleans())
         chains = [draw(st.integers(0, 2)) for _ in range(k)]
         joins = [sorted(draw(st.lists(st.integers(0, k - 1), min_size=2, max_size=min(3, k), unique=True))) for _ in range(draw(st.integers(0, 2)))]
-        return {"part": "C", "k": k, "multi": multi, "ifelse": use_ifelse, "chains": chains, "joins": joins, "pick": draw(st.lists(st.integers(0, 30), min_size=2, max_size=2)),
+        return {"part": "C", "k": k, "multi": multi, "ifelse": use_ifelse, "chains": chains, "joins": joins, "pick": draw(st.lists(st.integers(0, 30), min_size=2, max_size=2)), "pick3": draw(st.integers(0, 30)) if prob(draw, 0.4) else None,
                 "target_order": draw(st.permutations(list(range(k)))), "node_order": draw(st.lists(st.integers(0, 9), min_size=14, max_size=14))}
     flaw = draw(st.sampled_from(FLAWS))
     if flaw.startswith("strict") or flaw.startswith("edge_"):
@@ -505,9 +505,14 @@ def _part_c(case, ev):
     if x == y:
         ev.discard("same_node_picked")
         return
-    # both produce the shared name `r` (as an additional output)
+    prods = [x, y]
+    if case.get("pick3") is not None:
+        z = names[case["pick3"] % len(names)]
+        if z not in prods:
+            prods.append(z)  # a THIRD producer: every pair must be exclusive or ordered, adjacent in the node list or not
+    # all of them produce the shared name `r` (as an additional output)
     for n in nodes:
-        if n["name"] in (x, y):
+        if n["name"] in prods:
             n["outs"] = n["outs"] + ["r"]
     allnodes = nodes + [gate]
     perm = sorted(range(len(allnodes)), key=lambda i: (case["node_order"][i % len(case["node_order"])], i))
@@ -529,16 +534,19 @@ def _part_c(case, ev):
         for v in r[t]:
             cnt[v] = cnt.get(v, 0) + 1
     excl = {t: {v for v in r[t] if cnt[v] == 1} for t in targets}
-    mutex = (not case["multi"]) and any(x in excl[a] and y in excl[b] for a in targets for b in targets if a != b)
-    ordered = y in reach(x) or x in reach(y)
-    want_accept = mutex or ordered
-    tag = f"conflict k={k} {'multi' if case['multi'] else 'exclusive'} producers {x},{y} joins={case['joins']} targets listed {order}"
+    def pair_ok(p, q):
+        mutex = (not case["multi"]) and any(p in excl[a] and q in excl[b] for a in targets for b in targets if a != b)
+        return mutex or q in reach(p) or p in reach(q)
+
+    want_accept = all(pair_ok(p, q) for i, p in enumerate(prods) for q in prods[i + 1:])
+    tag = f"conflict k={k} {'multi' if case['multi'] else 'exclusive'} producers {','.join(prods)} joins={case['joins']} targets listed {order}"
+
     ctx = Ctx(compact=True)
     if want_accept:
         _expect_accepted(tag, lambda: make_graph(ctx, {"nodes": allnodes}, "sync"))
     else:
         _expect_rejected("shared_output_not_mutex_nor_ordered " + tag, lambda: make_graph(ctx, {"nodes": allnodes}, "sync"))
-    labels = {"part:C", f"k:{k}", "accept" if want_accept else "reject", "multi" if case["multi"] else "exclusive"}
+    labels = {"part:C", f"k:{k}", "accept" if want_accept else "reject", "multi" if case["multi"] else "exclusive", f"producers:{len(prods)}"}
     if case["joins"]:
         labels.add("partial_join")
     ev.case(case, k >= 3 or bool(case["joins"]), sorted(labels))
